@@ -277,7 +277,8 @@ impl Components {
                 self.data_streams
                     .package(self.flow_ctrl.sender.clone(), false),
             ),
-            // TODO: datagram
+            // repeat to send multi datagram frames in one packet
+            Repeat(self.datagram_flow.clone()),
         ));
         #[cfg(genmeta_gm_quic_verif)]
         let one_rtt_packages = Packages((
